@@ -94,3 +94,46 @@ def keyed_stores(ix, f, container="self._data", strip=True, _depth=1):
                 key = texts[m.group(1)][0] if texts[m.group(1)][0] is not None else texts[m.group(1)][1]
             out.append((key, sub(val), where))
     return out
+
+
+def hand_packed_keys(ix, f):
+    """[(call node, packed-key text, why)] for calls in `f` that establish ROW identity (np.unique / np.argsort / np.sort /
+    np.searchsorted / np.bincount / np.isin / np.in1d / set()) on a key packed by hand from two columns of an index array,
+    `a[:, i] * n + a[:, j]`, without widening the columns to int64 first.  The product is computed in the array's own
+    dtype: for 32-bit indices (index buffers from files, GPU libraries) it wraps around as soon as n**2 exceeds the dtype,
+    two different rows then get one key.  grouping.hashable_rows (C06) is the place that packs safely."""
+    import re
+
+    from .dag import Values
+
+    V = None
+    out = []
+    users = {"numpy.unique", "numpy.argsort", "numpy.sort", "numpy.searchsorted", "numpy.bincount", "numpy.isin", "numpy.in1d", "set",
+             "numpy.lexsort", "trimesh.grouping.unique_bincount", "trimesh.grouping.unique_ordered", "trimesh.grouping.group"}
+    for c in ast.walk(f.node):
+        if not (isinstance(c, ast.Call) and c.args):
+            continue
+        if V is None:
+            V = Values(ix, f, strip=False)
+        name = V.pv.callee(c.func) or ast.unparse(c.func)
+        if name not in users:
+            continue
+        st = V.pv.stmt_of(c)
+        if st is None:
+            continue
+        key = V.value(c.args[0], st)
+        for tpl in ("_e_A * _e_N + _e_B", "_e_A * _e_N | _e_B", "_e_A << _e_N | _e_B", "(_e_A << _e_N) + _e_B"):
+            env = V.match(tpl, key)
+            if env is None:
+                continue
+            ta, tb, tn = (V.text(env[k], 8, 500) for k in ("_e_A", "_e_B", "_e_N"))
+            # both operands are columns (or unpacked rows) of an index array
+            col = re.compile(r"\[:, ?-?\d+\]|\.T\[-?\d+\]|EACH\(|\[\.\.\., ?-?\d+\]")
+            if not (col.search(ta) and col.search(tb)):
+                continue
+            widened = any(re.search(r"int64|numpy\.(int_|intp|uint64)|astype\(int\)|dtype=int\b", t) for t in (ta, tb, tn))
+            if widened:
+                continue
+            out.append((c, V.text(key, 4, 200), f"`{name.split('.')[-1]}` over `{V.text(key, 3, 120)}`: two index columns packed into one integer in the array's own dtype"))
+            break
+    return out
